@@ -250,3 +250,12 @@ _AGES = ' Ages.tla (a long-lived object in long use; Ageless holds for the inten
 for _p in ['C01', 'C02', 'C03', 'C04', 'C05', 'C06', 'C07', 'C08', 'C10', 'C11', 'C12', 'C13', 'C14', 'C16', 'C18', 'C19', 'C20']:
     CLAIMED[_p]["text"] = CLAIMED[_p]["text"] + _AGES
     CLAIMED[_p]["technique"] = CLAIMED[_p]["technique"] + " + TLC-generated schedules of long use (Ages.tla) scaled and replayed on a long-lived object"
+
+
+# Neighbours.tla (wave 14): two issuers side by side, reconfigured while they serve
+_NB = (" Neighbours.tla (two rate-limited issuers side by side, registering origins while they serve; OwnRegistrations holds for the intended design "
+       "and fails for a shared table, a get-or-create accessor and insert-if-absent registration) generates every history of three operations, "
+       "each replayed on two real issuers in one process and validated by Trace_Neighbours.")
+for _p in ["C07", "C08", "C20"]:
+    CLAIMED[_p]["text"] = CLAIMED[_p]["text"] + _NB
+    CLAIMED[_p]["technique"] = CLAIMED[_p]["technique"] + " + TLC-generated histories of reconfiguration on two neighbouring issuers (Neighbours.tla) replayed on real issuers"
